@@ -101,6 +101,23 @@ def extra_files():
                 b'#..file:\n#...meta: format=json, length=%d\n%s'
                 % (len(pm), pm, len(js), js, len(dm), dm, len(js), js,
                    len(um), um, len(js), js)))
+    # format-string metacharacters in content (an error message that
+    # quotes the damaged line must not interpret it)
+    fm = (b'--- a/x.c\n+++ b/x.c\n@@ -1,2 +1,3 @@\n'
+          b'-printf("%d%% done %s\\n", n, s);\n'
+          b'+printf("%(count)d {0} {name} ${x} %", n);\n'
+          b'+similarity index 100%\n %\n')
+    fp_ = b'100% {} %s %(a)s %% \\x00 {0!r} $HOME\nsecond % line %\n'
+    js = b'{"path": "100%/%s/{x}"}\n'
+    out.append(('format-chars',
+                b'#diffx: encoding=utf-8, version=1.0\n'
+                b'#.preamble: indent=2, length=%d\n%s'
+                b'#.change:\n#..preamble: length=%d\n%s'
+                b'#..file:\n#...meta: format=json, length=%d\n%s'
+                b'#...diff: length=%d\n%s'
+                % (len(fp_.replace(b'\n', b'\n  ')) , b'  ' +
+                   fp_.replace(b'\n', b'\n  ')[:-2], len(fp_), fp_,
+                   len(js), js, len(fm), fm)))
     out.append(('foreign-minimal',
                 b'#diffx: version=1.0\n'
                 b'#.preamble: length=%d\n%s'
